@@ -110,6 +110,7 @@ type State struct {
 	path      []string // human-readable trail of decisions
 	mu        *Term    // unused
 	ghostI    map[*ssa.BasicBlock]*Term
+	lastCall  map[string][]Value // bare callee name -> results of its most recent call on this path (lasterr)
 	trace     []string
 	dead      bool
 }
@@ -156,6 +157,12 @@ func (s *State) clone() *State {
 	n.ghostI = map[*ssa.BasicBlock]*Term{}
 	for k, v := range s.ghostI {
 		n.ghostI[k] = v
+	}
+	if s.lastCall != nil {
+		n.lastCall = make(map[string][]Value, len(s.lastCall))
+		for k, v := range s.lastCall {
+			n.lastCall[k] = v
+		}
 	}
 	return n
 }
